@@ -118,22 +118,26 @@ static Verdict c10_cross(const Case& c) {
 // kernel: 0 (V,V) 1 (V,D) 2 (D,V) 3 (D,D) 4 (PV,PV) 5 (PV,PD) 6 (PD,PV) 7 (PD,PD); form 0: Angle constructor, 1: member a.Angle(b)
 static const char* kKernel[] = {"Angle(Vector, Vector)", "Angle(Vector, Direction)", "Angle(Direction, Vector)", "Angle(Direction, Direction)", "Angle(PlanarVector, PlanarVector)", "Angle(PlanarVector, PlanarDirection)",
                                 "Angle(PlanarDirection, PlanarVector)", "Angle(PlanarDirection, PlanarDirection)"};
-template <class T> static LD angle_lib(int kernel, int form, const LD* a, const LD* b, LD* sa, LD* sb) {
+// conv: direction operands are obtained through the converting constructor from a direction of a narrower numeric type (float), as in
+// Direction<double> d{Direction<float>{...}} - the statement of C16 says that constructor re-normalises, so d is a unit vector of its own type
+template <class T> static Direction<T> mkdir3(const LD* v, bool conv) { if (conv) { const Direction<float> n((float)v[0], (float)v[1], (float)v[2]); return Direction<T>(n); } return Direction<T>((T)v[0], (T)v[1], (T)v[2]); }
+template <class T> static PlanarDirection<T> mkdir2(const LD* v, bool conv) { if (conv) { const PlanarDirection<float> n((float)v[0], (float)v[1]); return PlanarDirection<T>(n); } return PlanarDirection<T>((T)v[0], (T)v[1]); }
+template <class T> static LD angle_lib(int kernel, int form, const LD* a, const LD* b, LD* sa, LD* sb, bool conv = false) {
   auto f3 = [](const auto& x, LD* o) { o[0] = x.x(); o[1] = x.y(); o[2] = x.z(); };
   auto f2 = [](const auto& x, LD* o) { o[0] = x.x(); o[1] = x.y(); o[2] = 0; };
   switch (kernel) {
     case 0: { const Vector<T> x((T)a[0], (T)a[1], (T)a[2]), y((T)b[0], (T)b[1], (T)b[2]); f3(x, sa); f3(y, sb); return form ? x.Angle(y).Value() : PhQ::Angle<T>(x, y).Value(); }
-    case 1: { const Vector<T> x((T)a[0], (T)a[1], (T)a[2]); const Direction<T> y((T)b[0], (T)b[1], (T)b[2]); f3(x, sa); f3(y, sb); return form ? x.Angle(y).Value() : PhQ::Angle<T>(x, y).Value(); }
-    case 2: { const Direction<T> x((T)a[0], (T)a[1], (T)a[2]); const Vector<T> y((T)b[0], (T)b[1], (T)b[2]); f3(x, sa); f3(y, sb); return form ? x.Angle(y).Value() : PhQ::Angle<T>(x, y).Value(); }
-    case 3: { const Direction<T> x((T)a[0], (T)a[1], (T)a[2]), y((T)b[0], (T)b[1], (T)b[2]); f3(x, sa); f3(y, sb); return form ? x.Angle(y).Value() : PhQ::Angle<T>(x, y).Value(); }
+    case 1: { const Vector<T> x((T)a[0], (T)a[1], (T)a[2]); const Direction<T> y = mkdir3<T>(b, conv); f3(x, sa); f3(y, sb); return form ? x.Angle(y).Value() : PhQ::Angle<T>(x, y).Value(); }
+    case 2: { const Direction<T> x = mkdir3<T>(a, conv); const Vector<T> y((T)b[0], (T)b[1], (T)b[2]); f3(x, sa); f3(y, sb); return form ? x.Angle(y).Value() : PhQ::Angle<T>(x, y).Value(); }
+    case 3: { const Direction<T> x = mkdir3<T>(a, conv), y = mkdir3<T>(b, conv); f3(x, sa); f3(y, sb); return form ? x.Angle(y).Value() : PhQ::Angle<T>(x, y).Value(); }
     case 4: { const PlanarVector<T> x((T)a[0], (T)a[1]), y((T)b[0], (T)b[1]); f2(x, sa); f2(y, sb); return form ? x.Angle(y).Value() : PhQ::Angle<T>(x, y).Value(); }
-    case 5: { const PlanarVector<T> x((T)a[0], (T)a[1]); const PlanarDirection<T> y((T)b[0], (T)b[1]); f2(x, sa); f2(y, sb); return form ? x.Angle(y).Value() : PhQ::Angle<T>(x, y).Value(); }
-    case 6: { const PlanarDirection<T> x((T)a[0], (T)a[1]); const PlanarVector<T> y((T)b[0], (T)b[1]); f2(x, sa); f2(y, sb); return form ? x.Angle(y).Value() : PhQ::Angle<T>(x, y).Value(); }
-    default: { const PlanarDirection<T> x((T)a[0], (T)a[1]), y((T)b[0], (T)b[1]); f2(x, sa); f2(y, sb); return form ? x.Angle(y).Value() : PhQ::Angle<T>(x, y).Value(); }
+    case 5: { const PlanarVector<T> x((T)a[0], (T)a[1]); const PlanarDirection<T> y = mkdir2<T>(b, conv); f2(x, sa); f2(y, sb); return form ? x.Angle(y).Value() : PhQ::Angle<T>(x, y).Value(); }
+    case 6: { const PlanarDirection<T> x = mkdir2<T>(a, conv); const PlanarVector<T> y((T)b[0], (T)b[1]); f2(x, sa); f2(y, sb); return form ? x.Angle(y).Value() : PhQ::Angle<T>(x, y).Value(); }
+    default: { const PlanarDirection<T> x = mkdir2<T>(a, conv), y = mkdir2<T>(b, conv); f2(x, sa); f2(y, sb); return form ? x.Angle(y).Value() : PhQ::Angle<T>(x, y).Value(); }
   }
 }
-static LD angle(int nt, int kernel, int form, const LD* a, const LD* b, LD* sa, LD* sb) {
-  return nt == 0 ? angle_lib<float>(kernel, form, a, b, sa, sb) : nt == 1 ? angle_lib<double>(kernel, form, a, b, sa, sb) : angle_lib<long double>(kernel, form, a, b, sa, sb);
+static LD angle(int nt, int kernel, int form, const LD* a, const LD* b, LD* sa, LD* sb, bool conv = false) {
+  return nt == 0 ? angle_lib<float>(kernel, form, a, b, sa, sb, conv) : nt == 1 ? angle_lib<double>(kernel, form, a, b, sa, sb, conv) : angle_lib<long double>(kernel, form, a, b, sa, sb, conv);
 }
 static Q angle_ref(const LD* a, const LD* b) {
   Q x[3], y[3]; for (int i = 0; i < 3; i++) { x[i] = a[i]; y[i] = b[i]; }
@@ -156,6 +160,19 @@ static Verdict c11_kernel(const Case& c) {
   if (th < 0 || (Q)th > pi + (Q)ulp_at(nt, 3)) return Verdict::fail(fmt("%s [%s] = %s is outside [0, pi] for %s", nm.c_str(), ntinfo(nt).name, decld(th).c_str(), args.c_str()));
   const Q ref = angle_ref(sa, sb), tol = 6 * sqrtq((Q)eps_of(nt));
   if (!(fabsq((Q)th - ref) <= tol)) return Verdict::fail(fmt("%s [%s] = %s but atan2(|a x b|, a.b) = %s (allowed 6 sqrt(eps) = %s) for %s", nm.c_str(), ntinfo(nt).name, decld(th).c_str(), qstr(ref).c_str(), qstr(tol).c_str(), args.c_str()));
+  // direction operands that come out of the converting constructor from a float direction (inputs inside the range of float)
+  if (nt > 0 && kernel != 0 && kernel != 4) {
+    bool ok = true; for (int i = 0; i < n; i++) for (const LD* v : {a, b}) if (v[i] != 0 && (std::fabs(v[i]) > std::ldexp((LD)1, 60) || std::fabs(v[i]) < std::ldexp((LD)1, -60))) ok = false;
+    const bool da = kernel == 2 || kernel == 3 || kernel == 6 || kernel == 7, db = kernel == 1 || kernel == 3 || kernel == 5 || kernel == 7;
+    bool fz = false; { float m = 0; if (da) { for (int i = 0; i < n; i++) m = std::max(m, std::fabs((float)a[i])); if (m == 0) fz = true; } m = 0; if (db) { for (int i = 0; i < n; i++) m = std::max(m, std::fabs((float)b[i])); if (m == 0) fz = true; } }
+    if (ok && !fz) {
+      LD ca[3], cb[3]; const LD thc = angle(nt, kernel, form, a, b, ca, cb, true);
+      if (std::isnan(thc)) return Verdict::fail(fmt("%s [%s] is NaN for directions converted from float: %s, %s", nm.c_str(), ntinfo(nt).name, cs(ca, n).c_str(), cs(cb, n).c_str()));
+      const Q refc = angle_ref(ca, cb);
+      if (!(fabsq((Q)thc - refc) <= tol)) return Verdict::fail(fmt("%s [%s] = %s but atan2(|a x b|, a.b) = %s (allowed 6 sqrt(eps) = %s) for %s, %s - direction operands obtained by the converting constructor from Direction<float>", nm.c_str(),
+                                                                   ntinfo(nt).name, decld(thc).c_str(), qstr(refc).c_str(), qstr(tol).c_str(), cs(ca, n).c_str(), cs(cb, n).c_str()));
+    }
+  }
   // symmetry: same-kind kernels bit for bit; mixed kernels against their mirror kernel within 4 ulp(pi)
   {
     static const int mirror[8] = {0, 2, 1, 3, 4, 6, 5, 7};
